@@ -548,9 +548,26 @@ def oracle_conv(ctx, budget):
         if not np.array_equal(out, np.array(exp)):
             ctx.fail('padded_convolve:value', f'padded_convolve(N={n}, M={m}, mode={mode!r}) differs from the centred direct convolution of the padded data', case)
             found += 1
+    # C18_pad_index_modes_copy on the implementation: pad(f(y)) == f(pad(y)) for a non-linear, non-monotone f
+    import random as _random
+    mrng = _random.Random(18181)
+    for n in range(1, 9 if budget == 1 else 17):
+        for p in sorted({0, 1, 2, n - 1, n, n + 1, 2 * n + 1, 3 * n}):
+            for mode in ['reflect', 'edge', 'symmetric', 'wrap']:
+                y0 = np.array([mrng.randint(-20, 20) for _ in range(n)], dtype=np.int64)
+                fy = y0 * y0 - 7 * y0 + 3
+                r0, rf = call(utils.pad_edges, y0, p, mode=mode), call(utils.pad_edges, fy, p, mode=mode)
+                ctx.case(('o-pad-map', n, p, mode), nontrivial=p > 0, kind='oracle:pad:map')
+                case = {'kind': 'pad', 'data': fy.tolist(), 'pad_length': p, 'mode': mode, 'extrapolate_window': None,
+                        'y': y0.tolist(), 'f': 'y*y - 7*y + 3'}
+                if r0[0] == 'err' and rf[0] == 'err' and r0[1] == rf[1]:
+                    continue
+                o0 = np.asarray(r0[1]) if r0[0] == 'ok' else None
+                if r0[0] != 'ok' or rf[0] != 'ok' or not np.array_equal(np.asarray(rf[1]), o0 * o0 - 7 * o0 + 3):
+                    ctx.fail('pad_edges:not-a-copy', f'pad_edges(N={n}, pad={p}, mode={mode!r}) of f(y) is not f(pad_edges(y))', case)
+                    found += 1
     # C18_convolve_index_modes_linear on the implementation: exact integer data, enumerated sizes, the four
     # index-function modes; a private generator so that the streams above and below are unchanged
-    import random as _random
     lrng = _random.Random(18180)
     for n in range(1, 9 if budget == 1 else 17):
         for m in sorted({1, 2, 3, n, n + 1, 2 * n + 1}):
